@@ -457,6 +457,19 @@ def run(case):
                 op_.time_travel(with_index(final, versions[-1]),
                                 with_index(final, None), tid,
                                 'time travel to %r' % tid)
+        # what a crash of the machine (not of a commit) can leave behind
+        # the last transaction: zeros (the file length on disk before the
+        # data); a read-only open shows the complete transactions and
+        # changes nothing.  (Random rubbish is no crash artefact of the
+        # crash model: a non-ASCII status byte makes read_index raise
+        # UnicodeDecodeError -- noted, outside the properties.)
+        for tl_, tail in (('zero tail', b'\0' * r.choice((23, 64, 600))),):
+            for vl, vb in (('noindex', None),
+                           ('newest', versions[-1] if versions else None)):
+                sn = with_index(final, vb)
+                ino = sn['files'][PATH]
+                sn['inodes'][ino] = bytes(sn['inodes'][ino]) + tail
+                op_.read_only(sn, '%s %s' % (tl_, vl), model)
         gone = with_index(final, None)
         gone['files'].pop(PATH, None)
         op_.read_only_absent(gone, 'no data file')
